@@ -191,9 +191,21 @@ func (m *SigningMonitor) OnEndBlock(h *Hist, b *BlockObs) {
 	for _, id := range b.FailedIDs {
 		failedNow[id] = true
 	}
+	// no attempt may start beyond the maximum in force (parameters only change between blocks here), whatever the
+	// maximum was when the signing was created
+	maxNow := k.GetParams(ctx).MaxSigningAttempt
+	for _, r := range b.NewAttempts {
+		if r.A.N > maxNow {
+			h.Violate("attempt-above-max-signing-attempt", fmt.Sprintf("block %d: signing %d got attempt %d although max_signing_attempt is %d", b.Height, r.S.ID, r.A.N, maxNow))
+			return
+		}
+	}
 	var wantInactive []string
 	for _, id := range h.Trk.Order {
 		s := h.Trk.Signings[id]
+		if cur := s.Cur(); cur != nil && s.Success == 0 && s.Failed == 0 && cur.N > maxNow {
+			h.Run.Count("signing-in-an-attempt-above-a-lowered-maximum", 1)
+		}
 		signing, err := k.GetSigning(ctx, tss.SigningID(id))
 		if err != nil {
 			h.Violate("signing-missing", fmt.Sprintf("signing %d announced by events is not in the store", id))
